@@ -17,6 +17,8 @@ Require Import PV.TypeVar.Base PV.TypeVar.Model PV.TypeVar.Spec PV.TypeVar.Simpl
 Require Import PV.Binder.Kind PV.Binder.Sig PV.Binder.Bind PV.Binder.PyBind.
 Require PV.Proofs.BinderStar.
 Require Import PV.Proofs.CallSelf.
+Require PV.Overload.Resolve.
+Require Import PV.Proofs.CallOverload.
 Require Import PV.Proofs.CallMain PV.Proofs.CallAtoms PV.Proofs.SolveAtoms PV.Proofs.CallCore.
 Require PV.Core.Obj PV.Core.Val PV.Core.Cls PV.Core.Member PV.Core.CanAssignK PV.Proofs.C03Main.
 Require Import PV.Gen.Solve PV.Gen.SolveAtoms PV.Gen.CallObjs PV.Gen.CheckCall.
@@ -66,6 +68,29 @@ Theorem C06_check_call_with_receiver :
   check_call O limit none_v (with_receiver s selfp) (call_with_receiver c selfv) = check_call O limit none_v s c.
 Proof. exact @check_call_with_receiver. Qed.
 Print Assumptions C06_check_call_with_receiver.
+
+(* C08 composed: an overloaded callee whose overloads are signatures of the call model (generic
+   or not).  The per-overload acceptance that the C08 resolver model (Overload/Resolve.v) takes as an
+   abstract function is instantiated with the C06 verdict; union-free, Any-free call (the call
+   model does not track "matched due to Any", and union decomposition is C08's own subject):
+   the call is typed with the return type of the first overload whose own check is clean ... *)
+Theorem C06_overloaded_call_first_clean :
+  forall (V : Type) (O : ops V) limit none_v (c : @ccall V) (ovs : list (@csig V * PV.Overload.Resolve.rtype)),
+  PV.Overload.Resolve.resolve (map (osig_of O limit none_v c) ovs) (PV.Overload.Resolve.singletons [0]) =
+  match find (fun sr => negb (diagnosed O limit none_v (fst sr) c)) ovs with
+  | Some sr => PV.Overload.Resolve.RTypes [snd sr]
+  | None => PV.Overload.Resolve.RErr
+  end.
+Proof. exact @overloaded_call_first_clean. Qed.
+Print Assumptions C06_overloaded_call_first_clean.
+
+(* ... and diagnosed iff every overload's own check diagnoses it *)
+Theorem C06_overloaded_call_diagnosed_iff :
+  forall (V : Type) (O : ops V) limit none_v (c : @ccall V) (ovs : list (@csig V * PV.Overload.Resolve.rtype)),
+  PV.Overload.Resolve.resolve (map (osig_of O limit none_v c) ovs) (PV.Overload.Resolve.singletons [0]) = PV.Overload.Resolve.RErr <->
+  forall sr, In sr ovs -> diagnosed O limit none_v (fst sr) c = true.
+Proof. exact @overloaded_call_diagnosed_iff. Qed.
+Print Assumptions C06_overloaded_call_diagnosed_iff.
 
 (* signatures without type variables: one incompatible_argument per parameter with a
    rejected argument value, and nothing else — all parameter kinds, star arguments included *)
